@@ -64,7 +64,9 @@ Section Keyed.
                  exists nb, mb1 sm = Some nb /\ bnum nb = bnum b /\ (0 <= bszx b -> 0 <= bszx nb)
     else exists sr, get_sent_request e tk = Some sr /\ mcode sm = mcode sr /\ mother sm = mother sr /\
                     metag sm = metag sr /\ mb1 sm = None /\
-                    exists nb, mb2 sm = Some nb /\ (0 <= bszx b -> 0 <= bszx nb <= 7 /\ 0 <= bnum nb).
+                    exists nb, mb2 sm = Some nb /\ (0 <= bszx b -> 0 <= bszx nb <= 7 /\ 0 <= bnum nb) /\
+                               (* repaired: only a GET / DELETE is ever repeated from block 0 *)
+                               (bnum nb <> 0 \/ mcode sr = GET \/ mcode sr = DELETE).
 
   Lemma pr_keyed e r maxszx isb1 b :
     0 <= maxszx <= 7 -> (mcode r =? GET) || (mcode r =? DELETE) = false ->
@@ -76,7 +78,7 @@ Section Keyed.
     (forall k, k <> tk -> tget (receiving e') k = tget (receiving e) k) /\
     (forall cm, tget (receiving e') tk = Some cm -> entry_ok cm) /\
     (nonempty_at (receiving e') tk -> bnum b = 0 \/ nonempty_at (receiving e) tk) /\
-    ((o = Fail /\ d = [] /\ e' = e) \/
+    ((o = Fail /\ d = []) \/
      (exists x, d = [x] /\ o = Out (app tk x) /\ tget (receiving e') tk = None /\
                 mbody x = bodyf (metag x) /\ H x /\ Tg (metag x) /\
                 (x = r \/ blockopt isb1 x = None) /\
@@ -90,7 +92,7 @@ Section Keyed.
     unfold observe_key. rewrite Hobs. rewrite Htok.
     destruct (if isb1 then false else match get_sent_request e tk with None => true | Some _ => false end) eqn:Hsent.
     { split; [symmetry; apply with_receiving_same|]. split; [reflexivity|]. split; [exact Hent|].
-      split; [intros Hne; right; exact Hne|left; repeat split]. }
+      split; [intros Hne; right; exact Hne|left; split; reflexivity]. }
     cbn [negb].
     pose proof (size_pos (bszx b) Hs) as Hsz.
     assert (Hmin : 0 <= Z.min (bszx b) maxszx <= 7) by lia.
@@ -110,6 +112,8 @@ Section Keyed.
          else
            let szx := Z.min szx0 maxszx in
            let psize := blen (mbody cm') in
+           if refuse_restart isb1 (psize / size szx) (get_sent_request e tk)
+           then (with_receiving e2 (tdel (receiving e2) tk), Fail, []) else
            let sm :=
              if isb1 then
                {| mcode := Continue; mtok := tk; mb1 := Some {| bszx := szx; bnum := bnum b; bmore := bmore b |};
@@ -126,7 +130,7 @@ Section Keyed.
       (forall k, k <> tk -> tget (receiving e') k = tget (receiving e) k) /\
       (forall cm, tget (receiving e') tk = Some cm -> entry_ok cm) /\
       (nonempty_at (receiving e') tk -> bnum b = 0 \/ nonempty_at (receiving e) tk) /\
-      ((o = Fail /\ d = [] /\ e' = e) \/
+      ((o = Fail /\ d = []) \/
        (exists x, d = [x] /\ o = Out (app tk x) /\ tget (receiving e') tk = None /\
                   mbody x = bodyf (metag x) /\ H x /\ Tg (metag x) /\
                   (x = r \/ blockopt isb1 x = None) /\
@@ -171,7 +175,16 @@ Section Keyed.
         split; [apply H_block; exact Hcm'h|]. split; [rewrite Het; exact Htg|].
         split; [right; unfold blockopt; destruct isb1; reflexivity|].
         apply Hfirst. exact Ha.
-      - cbn [receiving with_receiving].
+      - cbv zeta.
+        destruct (refuse_restart isb1 (blen (mbody cm') / size (Z.min szx0 maxszx)) (get_sent_request e tk)) eqn:Hrefuse.
+        { (* repaired: the restart at block 0 is refused, the entry is released *)
+          cbn [receiving with_receiving].
+          split; [destruct e; reflexivity|].
+          split; [intros k Hk; rewrite tget_tdel_other by congruence; apply tget_tput_other; congruence|].
+          split; [intros c0 Hc0; rewrite tget_tdel_same in Hc0; discriminate|].
+          split; [intros [c0 [Hc0 _]]; rewrite tget_tdel_same in Hc0; discriminate|].
+          left. split; reflexivity. }
+        cbn [receiving with_receiving].
         split; [destruct e; reflexivity|].
         split; [intros k Hk; apply tget_tput_other; congruence|].
         split; [intros c0 Hc0; rewrite tget_tput_same in Hc0; injection Hc0 as <-; exact Hent'|].
@@ -190,9 +203,14 @@ Section Keyed.
           eexists. split; [reflexivity|]. cbn [bnum bszx]. split; [reflexivity|]. lia.
         + destruct (get_sent_request e tk) as [sr|] eqn:Hsr; [|discriminate Hsent].
           cbn [mtok mbody mobs mcode mb2 metag mb1 mother]. repeat split.
-          exists sr. repeat split. eexists. split; [reflexivity|]. cbn [bnum bszx]. intros _.
-          assert (Hq : 0 <= Z.min szx0 maxszx <= 7) by lia.
-          pose proof (size_pos _ Hq). split; [lia|]. apply Z.div_pos; [apply blen_nonneg|lia]. }
+          exists sr. repeat split. eexists. split; [reflexivity|]. cbn [bnum bszx]. split.
+          { intros _. assert (Hq : 0 <= Z.min szx0 maxszx <= 7) by lia.
+            pose proof (size_pos _ Hq). split; [lia|]. apply Z.div_pos; [apply blen_nonneg|lia]. }
+          unfold refuse_restart in Hrefuse. cbn [negb andb] in Hrefuse.
+          destruct (blen (mbody cm') / size (Z.min szx0 maxszx) =? 0) eqn:Hz0;
+            [|left; apply Z.eqb_neq; exact Hz0].
+          cbn [andb] in Hrefuse. apply negb_false_iff, orb_true_iff in Hrefuse.
+          right. destruct Hrefuse as [Hg|Hg]; apply Z.eqb_eq in Hg; [left|right]; exact Hg. }
     destruct (tget (receiving e) tk) as [c|] eqn:Hc.
     - specialize (Hent c eq_refl).
       destruct (bmore b); apply (Hgen c (bszx b) Hs Hent); try (left; reflexivity).
@@ -204,7 +222,7 @@ Section Keyed.
       + destruct (negb (bnum b =? 0)) eqn:Hz.
         * split; [symmetry; apply with_receiving_same|]. split; [reflexivity|].
           split; [intros cm Hcm; rewrite Hc in Hcm; discriminate|].
-          split; [intros Hne; right; exact Hne|left; repeat split].
+          split; [intros Hne; right; exact Hne|left; split; reflexivity].
         * apply negb_false_iff, Z.eqb_eq in Hz.
           split; [symmetry; apply with_receiving_same|]. split; [reflexivity|].
           split; [intros cm Hcm; rewrite Hc in Hcm; discriminate|].
@@ -278,9 +296,6 @@ Section System.
 
   (* a message towards B that stems from A's application: the request, a Block1 part
      of it, or a body-less request for a block of the response *)
-  (* the response of exchange x can be block-wise: some version served so far has 16 bytes or more *)
-  Definition big_resp (V : Z -> Z) (x : exch) : Prop :=
-    exists r v, the_res x = Some r /\ okv V x r v /\ 16 <= blen (res_body r v).
   Definition req_of (V : Z -> Z) (m : msg) : Prop :=
     exists x, In x (cexch c) /\ req_hdr x m /\ metag m = None /\
       (forall b2, mb2 m = Some b2 -> 0 <= bszx b2 /\ 0 <= bnum b2) /\
@@ -288,17 +303,15 @@ Section System.
       | Some b => is_upload (xcode x) = true /\ 0 <= bszx b <= 7 /\ 0 <= bnum b /\
                   slice_at (req_body x) (bnum b * size (bszx b)) (mbody m) /\
                   (bmore b = false -> bnum b * size (bszx b) + blen (mbody m) = blen (req_body x))
-      | None => mbody m = req_body x \/ (mbody m = [] /\ (exists b2, mb2 m = Some b2) /\ big_resp V x)
+      | None => mbody m = req_body x \/ (mbody m = [] /\ exists b2, mb2 m = Some b2 /\ bnum b2 <> 0)
       end.
   Definition okB (V : Z -> Z) (m : msg) : Prop := req_of V m \/ (ctl m /\ mcode m = Incomplete).
 
-  (* what may be handed to the two applications.  B: the exact request body (or, for an
-     upload whose response is block-wise, a body-less request that restarts the response
-     at block 0: the C04 finding); A: the exact representation *)
-  Definition restart_req (V : Z -> Z) (x : exch) (d : msg) : Prop :=
-    is_upload (xcode x) = true /\ mbody d = [] /\ mb1 d = None /\ (exists b2, mb2 d = Some b2 /\ bnum b2 = 0) /\ big_resp V x.
+  (* what may be handed to the two applications.  B: the exact request body (repaired: the
+     body-less request that restarted a block-wise response to a POST/PUT at block 0 is no longer
+     sent); A: the exact representation *)
   Definition delivB_ok (V : Z -> Z) (d : msg) : Prop :=
-    (exists x, In x (cexch c) /\ req_hdr x d /\ (mbody d = req_body x \/ restart_req V x d)) \/
+    (exists x, In x (cexch c) /\ req_hdr x d /\ mbody d = req_body x) \/
     (mbody d = [] /\ mcode d = Incomplete).
   Definition delivA_ok (V : Z -> Z) (d : msg) : Prop :=
     (exists x r v, In x (cexch c) /\ the_res x = Some r /\ okv V x r v /\ resp_hdr x r d /\
@@ -360,21 +373,16 @@ Section System.
     intros HV [x [r [v [Hx [Hr [Hv Hrest]]]]]]. exists x, r, v. split; [exact Hx|]. split; [exact Hr|].
     split; [eapply okv_mono; eassumption|exact Hrest].
   Qed.
-  Lemma big_resp_mono V V' x : Vle V V' -> big_resp V x -> big_resp V' x.
-  Proof. intros HV [r [v [Hr [Hv Hb]]]]. exists r, v. split; [exact Hr|]. split; [eapply okv_mono; eassumption|exact Hb]. Qed.
   Lemma req_of_mono V V' m : Vle V V' -> req_of V m -> req_of V' m.
   Proof.
     intros HV [x [Hx [Hh [He [Hb2 Hb1]]]]]. exists x. split; [exact Hx|]. split; [exact Hh|]. split; [exact He|]. split; [exact Hb2|].
-    destruct (mb1 m); [exact Hb1|]. destruct Hb1 as [Hb|[Hb [Hb' Hbig]]]; [left; exact Hb|right].
-    split; [exact Hb|]. split; [exact Hb'|]. eapply big_resp_mono; eassumption.
+    exact Hb1.
   Qed.
   Lemma okB_mono V V' m : Vle V V' -> okB V m -> okB V' m.
   Proof. intros HV [Hm|Hm]; [left; eapply req_of_mono; eassumption|right; exact Hm]. Qed.
   Lemma delivB_mono V V' d : Vle V V' -> delivB_ok V d -> delivB_ok V' d.
   Proof.
-    intros HV [[x [Hx [Hh Hb]]]|Hd]; [left|right; exact Hd]. exists x. split; [exact Hx|]. split; [exact Hh|].
-    destruct Hb as [Hb|[H1 [H2 [H3 [H4 H5]]]]]; [left; exact Hb|right].
-    split; [exact H1|]. split; [exact H2|]. split; [exact H3|]. split; [exact H4|]. eapply big_resp_mono; eassumption.
+    intros HV [[x [Hx [Hh Hb]]]|Hd]; [left|right; exact Hd]. exists x. split; [exact Hx|]. split; [exact Hh|]. exact Hb.
   Qed.
   Lemma okA_mono V V' m : Vle V V' -> okA V m -> okA V' m.
   Proof. intros HV [Hm|Hm]; [left; eapply resp_of_mono; eassumption|right; exact Hm]. Qed.
@@ -543,7 +551,7 @@ Section System.
         destruct (mcode wm =? Content); [apply (Hb2 b eq_refl)|apply Hstart]. }
       { destruct (app_b c vs (mtok m) m) as [wm|]; [|apply Hstart]. destruct (mb2 m) as [b|] eqn:Eb; [|apply Hstart].
         destruct (mcode wm =? Content); [apply (Hb2 b eq_refl)|apply Hstart]. }
-      split; [exact Hi|]. split; [exact Ho'|]. intros y [<-|[]]. left. exists x. split; [exact Hx|]. split; [exact Hh|]. left.
+      split; [exact Hi|]. split; [exact Ho'|]. intros y [<-|[]]. left. exists x. split; [exact Hx|]. split; [exact Hh|].
       specialize (Hlen0 Hupgd).
       destruct (mb1 m); [destruct Hb1 as [Hup _]; congruence|]. destruct Hb1 as [Hb|[Hb _]]; [exact Hb|].
       rewrite Hb. unfold req_body. rewrite Hlen0. reflexivity.
@@ -571,13 +579,13 @@ Section System.
         { rewrite Hfr. split; [exact He1|]. split; [exact He2|]. split; [exact Hs|]. cbn [receiving with_receiving].
           apply (recvB_update e (receiving e1) x Hx Hupgd Hr Hoth Hkey). }
         assert (Hemax : emax e = emax e1) by (rewrite Hfr; reflexivity).
-        destruct Hcases as [[-> [-> ->]]|[(y & -> & -> & _ & Hby & Hhy & _ & _ & _)|(sm & -> & -> & Hsm)]].
-        * split; [exact Hinv|]. split; [discriminate|intros y []].
+        destruct Hcases as [[-> ->]|[(y & -> & -> & _ & Hby & Hhy & _ & _ & _)|(sm & -> & -> & Hsm)]].
+        * split; [exact Hinv1|]. split; [discriminate|intros y []].
         * rewrite Hemax.
           match goal with |- context [start_sending e1 ?w ?mx (emax e1) ?b] =>
             pose proof (start_sending_B V e1 w mx b Hinv1) as Hss; destruct (start_sending e1 w mx (emax e1) b) as [e' o'] end.
           destruct Hss as [Hi [_ Ho']]; [rewrite <- Ht; apply (Hans y Hhy)|exact Hfit|apply Hstart|apply Hstart|].
-          split; [exact Hi|]. split; [exact Ho'|]. intros z [<-|[]]. left. exists x. split; [exact Hx|]. split; [exact Hhy|]. left; exact Hby.
+          split; [exact Hi|]. split; [exact Ho'|]. intros z [<-|[]]. left. exists x. split; [exact Hx|]. split; [exact Hhy|]. exact Hby.
         * rewrite Hemax.
           match goal with |- context [start_sending e1 ?w ?mx (emax e1) ?b] =>
             pose proof (start_sending_B V e1 w mx b Hinv1) as Hss; destruct (start_sending e1 w mx (emax e1) b) as [e' o'] end.
@@ -594,9 +602,8 @@ Section System.
             pose proof (start_sending_B V e w mx b Hinv (Hans m Hh) Hfit) as Hss; destruct (start_sending e w mx (emax e) b) as [e' o] end.
           destruct Hss as [Hi [_ Ho']]; [apply Hstart|apply Hstart|].
           split; [exact Hi|]. split; [exact Ho'|]. intros y [<-|[]]. left. exists x. split; [exact Hx|]. split; [exact Hh|].
-          destruct Hb1 as [Hb|[Hb [[b2 Hb2'] Hbig]]]; [left; exact Hb|right].
-          split; [exact Hupgd|]. split; [exact Hb|]. split; [exact Eb1|]. split; [|exact Hbig]. exists b2. split; [exact Hb2'|].
-          rewrite Hb2' in Hnz. apply negb_false_iff, Z.eqb_eq in Hnz. exact Hnz.
+          destruct Hb1 as [Hb|[Hb [b2 [Hb2' Hb2nz]]]]; [exact Hb|exfalso].
+          rewrite Hb2' in Hnz. apply negb_false_iff, Z.eqb_eq in Hnz. contradiction.
   Qed.
 
   Lemma ctl_incomplete t : ctl (entity_incomplete t).
@@ -782,8 +789,8 @@ Section System.
     { rewrite Hfr. split; [exact He1|]. split; [exact He2|]. split; [exact He3|]. split; [exact Hs|]. cbn [receiving with_receiving].
       apply (recvA_update V e (receiving e1) x r Hx Hrs Hr Hoth Hkey). }
     assert (Hemax : emax e = emax e1) by (rewrite Hfr; reflexivity).
-    destruct Hcases as [[-> [-> ->]]|[(y & -> & -> & _ & Hby & Hhy & [vy [Hvy Hey]] & _ & _)|(sm & -> & -> & Hsm)]].
-    - split; [exact Hinv|]. split; [discriminate|intros y []].
+    destruct Hcases as [[-> ->]|[(y & -> & -> & _ & Hby & Hhy & [vy [Hvy Hey]] & _ & _)|(sm & -> & -> & Hsm)]].
+    - split; [exact Hinv1|]. split; [discriminate|intros y []].
     - cbn [app_a start_sending]. split; [exact Hinv1|]. split; [discriminate|]. intros z [<-|[]]. left.
       exists x, r, vy. split; [exact Hx|]. split; [exact Hrs|]. split; [exact Hvy|]. split; [exact Hhy|]. split; [exact Hey|].
       rewrite Hby, Hey. eapply bodyfA_etag. exact Hvy.
@@ -792,7 +799,7 @@ Section System.
         pose proof (start_sending_A V e1 w mx b0 Hinv1) as Hss; destruct (start_sending e1 w mx (emax e1) b0) as [e' o'] end.
       destruct Hss as [Hi [_ Ho']]; [|exact Hfit|apply Hstart|apply Hstart|split; [exact Hi|split; [exact Ho'|intros z []]]].
       intros wm E. injection E as <-. left.
-      destruct Hsm as (Hst & Hsb & Hso & sr & Hsr & Hsc & Hsot & Hset & Hs1 & nb & Hnb & Hnbb).
+      destruct Hsm as (Hst & Hsb & Hso & sr & Hsr & Hsc & Hsot & Hset & Hs1 & nb & Hnb & Hnbb & Hnb0).
       split; [exact Hsb|]. left. exists x. split; [exact Hx|].
       assert (Hsrx : sr = set_body (request_of x) []).
       { unfold get_sent_request in Hsr. destruct (tget (sending e) (xtok x)) as [m0|] eqn:Hm0.
@@ -801,7 +808,12 @@ Section System.
       subst sr. cbn [mcode mother metag set_body request_of] in *.
       split; [repeat split; assumption|]. split; [exact Hset|].
       split; [intros b2 E; rewrite Hnb in E; injection E as <-; destruct (Hnbb ltac:(lia)) as [? ?]; lia|].
-      rewrite Hs1. right. split; [exact Hsb|]. split; [exists nb; exact Hnb|]. exists r, v. split; [exact Hrs|]. split; [exact Hv|exact Hbig].
+      rewrite Hs1. destruct Hnb0 as [Hnz|Hgd0].
+      + right. split; [exact Hsb|]. exists nb. split; [exact Hnb|exact Hnz].
+      + (* the request is a GET / DELETE: it has no body, repeating it from block 0 is the request itself *)
+        left. rewrite Hsb. unfold req_body.
+        destruct (wf_exch c Hwf x Hx) as [_ [_ [_ [_ Hlen0]]]].
+        rewrite Hlen0; [reflexivity|]. destruct Hgd0 as [Hg|Hg]; rewrite Hg; reflexivity.
   Qed.
 
   Lemma okB_incomplete V t : okB V (entity_incomplete t).
@@ -1092,8 +1104,7 @@ Section System.
      delivery, duplication, loss, replay of anything ever sent, resource changes (of
      resources that carry an ETag), time-outs, expiry sweeps, restarts - every message
      handed to B's application belongs to an exchange A's application started, has its
-     code and options, and carries exactly its body (or is the body-less request that
-     restarts a block-wise response to a POST/PUT: the finding); every message handed to
+     code and options, and carries exactly its body; every message handed to
      A's application is body-less, or has the code / options / ETag of one version of
      the resource of its exchange and exactly that version's body. *)
   Theorem exchange_safety es :
@@ -1138,25 +1149,18 @@ Section System.
   Lemma blen_gen_body salt n : blen (gen_body salt n) = Z.of_nat n.
   Proof. unfold blen. rewrite gen_body_length. reflexivity. Qed.
 
-  (* a body-less request that restarts a block-wise response to a POST/PUT, as observed *)
-  Definition restart_pm (d : pm) : Prop :=
-    plen d = 0 /\ pb1 d = None /\ (exists s mo, pb2 d = Some (s, 0, mo)) /\ is_upload (pcode d) = true.
-
   Lemma delivB_class es d :
-    delivB_ok (bumps es) d -> delivery_class c es 1 (proj d) = 0%N \/ restart_pm (proj d).
+    delivB_ok (bumps es) d -> delivery_class c es 1 (proj d) = 0%N.
   Proof.
     intros [[x [Hx [[Ht [Hc [Ho _]]] Hb]]]|[Hnil Hc]].
-    2: { left. unfold delivery_class, proj. cbn [pcode plen Z.eqb]. rewrite Hc, Hnil. reflexivity. }
+    2: { unfold delivery_class, proj. cbn [pcode plen Z.eqb]. rewrite Hc, Hnil. reflexivity. }
     destruct (wf_exch c Hwf x Hx) as [_ [Hcode [_ [Hlen _]]]].
-    destruct Hb as [Hb|[Hup [Hnil [Hb1 [[b2 [Hb2 Hn]] _]]]]].
-    - left. unfold delivery_class, proj. cbn [pcode plen ptok psum pother Z.eqb].
-      rewrite Hc, Ht, Ho, Hb. unfold is_request.
-      replace ((GET <=? xcode x) && (xcode x <=? DELETE)) with true
-        by (symmetry; apply andb_true_iff; split; apply Z.leb_le; lia).
-      rewrite find_exch_some by exact Hx. unfold req_body. rewrite blen_gen_body, Z2Nat.id by exact Hlen.
-      rewrite !Z.eqb_refl, pair_list_refl. reflexivity.
-    - right. unfold restart_pm, proj. cbn [plen pb1 pb2 pcode proj_blk]. rewrite Hnil, Hb1, Hb2, Hc. cbn [proj_blk].
-      split; [reflexivity|]. split; [reflexivity|]. split; [|exact Hup]. rewrite Hn. eexists. eexists. reflexivity.
+    unfold delivery_class, proj. cbn [pcode plen ptok psum pother Z.eqb].
+    rewrite Hc, Ht, Ho, Hb. unfold is_request.
+    replace ((GET <=? xcode x) && (xcode x <=? DELETE)) with true
+      by (symmetry; apply andb_true_iff; split; apply Z.leb_le; lia).
+    rewrite find_exch_some by exact Hx. unfold req_body. rewrite blen_gen_body, Z2Nat.id by exact Hlen.
+    rewrite !Z.eqb_refl, pair_list_refl. reflexivity.
   Qed.
 
   Lemma delivA_class es d : delivA_ok (bumps es) d -> delivery_class c es 0 (proj d) = 0%N.
@@ -1180,55 +1184,18 @@ Section System.
 
   (* C04 safety over all fault scripts, in the terms of the specification: on the
      model's trace of ANY script every delivery has class 0 (exact body, code and
-     options preserved, known token), except the restart request of the finding *)
+     options preserved, known token) - without exception since the client no longer
+     restarts the response of a POST/PUT at block 0 *)
   Theorem exchange_safety_spec es :
     Forall bump_ok es ->
-    Forall (fun o => Forall (fun d => delivery_class c es (o_side o) d = 0%N \/ (o_side o = 1 /\ restart_pm d)) (o_deliv o))
-           (model_obs c es).
+    Forall (fun o => Forall (fun d => delivery_class c es (o_side o) d = 0%N) (o_deliv o)) (model_obs c es).
   Proof.
     intros Hb. pose proof (exchange_safety es Hb) as Hs. unfold model_obs.
     apply Forall_forall. intros o Ho. apply in_map_iff in Ho. destruct Ho as [mo [<- Hmo]].
     rewrite Forall_forall in Hs. specialize (Hs mo Hmo).
     apply Forall_forall. intros d Hd. cbn [proj_mob o_deliv o_side] in *. apply in_map_iff in Hd. destruct Hd as [md [<- Hmd]].
     destruct Hs as [[Hside Hs]|[[Hside Hs]|Hs]].
-    - rewrite Hside. destruct (delivB_class es md (Hs md Hmd)) as [H0|H1]; [left; exact H0|right; split; [reflexivity|exact H1]].
-    - rewrite Hside. left. apply delivA_class. apply Hs; exact Hmd.
-    - rewrite Hs in Hmd. destruct Hmd.
-  Qed.
-
-  (* no response to a POST/PUT is ever block-wise: every version served during the
-     script is shorter than the smallest block *)
-  Definition small_upload_responses (es : list ev) : Prop :=
-    forall x r v, In x (cexch c) -> is_upload (xcode x) = true -> the_res x = Some r ->
-                  0 <= v <= bumps es (xpath x) -> blen (res_body r v) < 16.
-
-  Lemma delivB_class_exact es V d :
-    delivB_ok V d -> (forall x, In x (cexch c) -> ~ restart_req V x d) -> delivery_class c es 1 (proj d) = 0%N.
-  Proof.
-    intros [[x [Hx [[Ht [Hc [Ho _]]] Hb]]]|[Hnil Hc]] Hno.
-    2: { unfold delivery_class, proj. cbn [pcode plen Z.eqb]. rewrite Hc, Hnil. reflexivity. }
-    destruct (wf_exch c Hwf x Hx) as [_ [Hcode [_ [Hlen _]]]].
-    destruct Hb as [Hb|Hre]; [|exfalso; exact (Hno x Hx Hre)].
-    unfold delivery_class, proj. cbn [pcode plen ptok psum pother Z.eqb].
-    rewrite Hc, Ht, Ho, Hb. unfold is_request.
-    replace ((GET <=? xcode x) && (xcode x <=? DELETE)) with true
-      by (symmetry; apply andb_true_iff; split; apply Z.leb_le; lia).
-    rewrite find_exch_some by exact Hx. unfold req_body. rewrite blen_gen_body, Z2Nat.id by exact Hlen.
-    rewrite !Z.eqb_refl, pair_list_refl. reflexivity.
-  Qed.
-
-  (* ... and when no response to an upload is block-wise, without exception *)
-  Theorem exchange_safety_spec_exact es :
-    Forall bump_ok es -> small_upload_responses es ->
-    Forall (fun o => Forall (fun d => delivery_class c es (o_side o) d = 0%N) (o_deliv o)) (model_obs c es).
-  Proof.
-    intros Hb Hsmall. pose proof (exchange_safety es Hb) as Hs. unfold model_obs.
-    apply Forall_forall. intros o Ho. apply in_map_iff in Ho. destruct Ho as [mo [<- Hmo]].
-    rewrite Forall_forall in Hs. specialize (Hs mo Hmo).
-    apply Forall_forall. intros d Hd. cbn [proj_mob o_deliv o_side] in *. apply in_map_iff in Hd. destruct Hd as [md [<- Hmd]].
-    destruct Hs as [[Hside Hs]|[[Hside Hs]|Hs]].
-    - rewrite Hside. apply (delivB_class_exact es (bumps es) md (Hs md Hmd)).
-      intros x Hx [Hup [_ [_ [_ [r [v [Hr [[Hv _] Hbig]]]]]]]]. specialize (Hsmall x r v Hx Hup Hr Hv). lia.
+    - rewrite Hside. apply delivB_class. apply Hs; exact Hmd.
     - rewrite Hside. apply delivA_class. apply Hs; exact Hmd.
     - rewrite Hs in Hmd. destruct Hmd.
   Qed.
@@ -1322,6 +1289,8 @@ Section System.
          else
            let szx := Z.min szx0 mx in
            let psize := blen (mbody cm') in
+           if refuse_restart isb1 (psize / size szx) (get_sent_request e (mtok r))
+           then (with_receiving e2 (tdel (receiving e2) (mtok r)), Fail, []) else
            let sm :=
              if isb1 then
                {| mcode := Continue; mtok := mtok r; mb1 := Some {| bszx := szx; bnum := bnum b; bmore := bmore b |};
@@ -1351,7 +1320,11 @@ Section System.
         right; right. eexists. split; [reflexivity|].
         split; [destruct (mtok cm' =? mtok r); cbn [receiving with_receiving with_sending]; apply tget_tdel_same|].
         destruct (Hap eq_refl) as [Hz|Hn]; [left; exact Hz|right; apply Hbefore; exact Hn].
-      - cbn [receiving with_receiving].
+      - cbv zeta. match goal with |- context [refuse_restart ?a ?n ?q] => destruct (refuse_restart a n q) end.
+        { unfold once_post. cbn [receiving with_receiving].
+          split; [intros k Hk; rewrite tget_tdel_other by congruence; apply tget_tput_other; congruence|]. split; [intros x []|].
+          left. split; [reflexivity|]. intros [c0 [Hc0 _]]. rewrite tget_tdel_same in Hc0. discriminate. }
+        cbn [receiving with_receiving].
         split; [intros k Hk; apply tget_tput_other; congruence|]. split; [intros x []|].
         left. split; [reflexivity|]. intros [c0 [Hc0 Hn0]]. cbn [receiving with_receiving] in Hc0. rewrite tget_tput_same in Hc0. injection Hc0 as <-.
         destruct (Hne Hn0) as [Hz|Hn]; [left; exact Hz|right; apply Hbefore; exact Hn]. }
@@ -1773,12 +1746,12 @@ Section System.
 
   (* The whole property C04 (Spec.c04_ok: exact body, once, options, known token, Do
      returns with its response, no panic / hang marks) holds on the model's trace of
-     EVERY script, for every well-formed configuration in which no response to a
-     POST/PUT is block-wise *)
+     EVERY script, for every well-formed configuration (repaired: also when the response
+     to a POST/PUT is block-wise) *)
   Theorem exchange_c04_ok es :
-    Forall bump_ok es -> small_upload_responses es -> c04_ok c es (model_obs c es) = true.
+    Forall bump_ok es -> c04_ok c es (model_obs c es) = true.
   Proof.
-    intros Hb Hsmall. unfold c04_ok, c04_class.
+    intros Hb. unfold c04_ok, c04_class.
     assert (Hbad : first_class (map (fun o => if o_bad o =? 0 then 0%N else if o_bad o =? 1 then 6%N else 7%N) (model_obs c es)) = 0%N).
     { apply first_class_zero. apply Forall_forall. intros x Hx. apply in_map_iff in Hx. destruct Hx as [o [<- Ho]].
       unfold model_obs in Ho. apply in_map_iff in Ho. destruct Ho as [mo [<- _]]. reflexivity. }
@@ -1786,7 +1759,7 @@ Section System.
     assert (Hdc : first_class (flat_map (fun o => map (delivery_class c es (o_side o)) (o_deliv o)) (model_obs c es)) = 0%N).
     { apply first_class_zero. apply Forall_forall. intros x Hx. apply in_flat_map in Hx. destruct Hx as [o [Ho Hx]].
       apply in_map_iff in Hx. destruct Hx as [d [<- Hd]].
-      pose proof (exchange_safety_spec_exact es Hb Hsmall) as Hs. rewrite Forall_forall in Hs. specialize (Hs o Ho).
+      pose proof (exchange_safety_spec es Hb) as Hs. rewrite Forall_forall in Hs. specialize (Hs o Ho).
       rewrite Forall_forall in Hs. exact (Hs d Hd). }
     rewrite Hdc. cbn [N.eqb negb]. rewrite (exchange_once es Hb). cbn [negb].
     unfold model_obs. rewrite run_ret; [reflexivity|]. intros i t [].
@@ -1887,6 +1860,7 @@ Section System.
     all: match goal with |- context [reasm ?a ?b0 ?c1] => destruct (reasm a b0 c1) as [cm' appended] end.
     all: match goal with |- context [if ?cnd then _ else _] => destruct cnd end.
     all: try (right; left; eexists; split; reflexivity).
+    all: cbv zeta; match goal with |- context [refuse_restart ?a ?n ?q] => destruct (refuse_restart a n q) end; [left; auto|].
     all: right; right; eexists; split; [reflexivity|split; [reflexivity|]].
     all: destruct isb1; try reflexivity; destruct (get_sent_request e (mtok r)); reflexivity.
   Qed.
@@ -2045,9 +2019,10 @@ Section System.
       all: match goal with |- context [reasm ?a ?b0 ?c1] => destruct (reasm a b0 c1) as [cm' appended] end.
       all: match goal with |- context [if ?cnd then _ else _] => destruct cnd end.
       all: try (destruct (mtok cm' =? mtok r)).
+      all: cbv zeta; try match goal with |- context [refuse_restart ?a ?n ?q] => destruct (refuse_restart a n q) end.
       all: cbn [sending receiving with_sending with_receiving].
       all: split; [reflexivity|]; split; [reflexivity|]; split; [first [apply Hput|apply Hdel|apply Hdel2]|].
-      all: intros wm E; injection E as E.
+      all: intros wm E; try discriminate E; injection E as E.
       all: try (eapply Happ; exact E).
       all: subst wm; destruct isb1; try reflexivity; destruct (get_sent_request e1 (mtok r)); reflexivity.
     Qed.
@@ -2116,6 +2091,7 @@ Section System.
     all: match goal with |- context [reasm ?a ?b0 ?c1] => destruct (reasm a b0 c1) as [cm' appended] end.
     all: match goal with |- context [if ?cnd then _ else _] => destruct cnd end.
     all: try (destruct (mtok cm' =? key)).
+    all: cbv zeta; try match goal with |- context [refuse_restart ?a ?n ?q] => destruct (refuse_restart a n q) end.
     all: exact Hk.
   Qed.
 
@@ -2766,19 +2742,34 @@ Section System.
 End System.
 
 (* ------------------------------------------------------------------------ *)
-(* 14. the unrestricted statement is false: the finding                       *)
-(* A POST whose response is block-wise.  The client ends up asking for block 0 *)
-(* of the response again (witness 1: an old response block meets a new Do that *)
-(* reuses the token; witness 2: the resource changed, the ETag differs, the    *)
-(* reassembly restarts) with a request that has the code and options of the    *)
-(* POST but no body; a server that no longer holds the response hands that     *)
-(* body-less POST to its application.                                          *)
+(* 14. the histories of the repaired finding                                   *)
+(* A POST whose response is block-wise.  Before the repair the client ended up *)
+(* asking for block 0 of the response again (witness 1: an old response block  *)
+(* meets a new Do that reuses the token; witness 2: the resource changed, the   *)
+(* ETag differs, the reassembly restarts) with a request that had the code and *)
+(* options of the POST but no body, and a server that no longer held the       *)
+(* response handed that body-less POST to its application (c04_class = 1 on    *)
+(* both histories).  Repaired: at that event the client reports an error,      *)
+(* releases the reassembly entry, answers 4.08 and hands nothing over; the      *)
+(* whole property holds on both histories (and on all others: exchange_c04_ok).*)
 Definition refute_cfg1 : cfg := Cfg 0 1152 0 1152 [X 0 2 7 0 5 5 None] [R 11 40 false 42] [].
 Definition refute_es1 : list ev :=
   [Start 0; Deliver 0; Deliver 0; Deliver 0; Deliver 0; Deliver 0; Deliver 0; Start 0; Replay 3; Deliver 1]%nat.
 Definition refute_cfg2 : cfg := Cfg 0 1152 0 1152 [X 0 2 7 0 5 5 None] [R 11 20 true 42] [].
 Definition refute_es2 : list ev :=
   [Start 0; Deliver 0; Deliver 0; Deliver 0; Bump 0; Replay 0; Replay 2; Deliver 2; Deliver 2]%nat.
+
+(* the n-th event is a refusal at A: error callback, nothing handed over, 4.08 sent, no reassembly entry left *)
+Definition refused_at (os : list obs) (n : nat) : Prop :=
+  match nth_error os n with
+  | Some o => o_side o = 0 /\ o_err o = 1 /\ o_deliv o = [] /\
+              (exists m, o_wire o = Some (true, m) /\ pcode m = Incomplete /\ plen m = 0) /\
+              nth 1 (o_sizes o) (-1) = 0
+  | None => False
+  end.
+(* B's application is never handed a request without the body A's application supplied *)
+Definition no_empty_request (os : list obs) : Prop :=
+  Forall (fun o => o_side o = 1 -> Forall (fun d => is_request (pcode d) = true -> plen d = 5) (o_deliv o)) os.
 
 Lemma one_exch_wf sA mA sB mB x r :
   0 <= sA <= 7 -> 0 <= sB <= 7 -> 0 <= mA -> 0 <= mB ->
@@ -2793,14 +2784,24 @@ Proof.
   - intros y [<-|[]]. assumption.
 Qed.
 
-Theorem exchange_safety_unrestricted_refuted :
+Theorem restart_refused_on_witnesses :
   (cfg_wf refute_cfg1 /\ Forall (bump_ok refute_cfg1) refute_es1 /\
-   c04_class refute_cfg1 refute_es1 (model_obs refute_cfg1 refute_es1) = 1%N) /\
+   c04_class refute_cfg1 refute_es1 (model_obs refute_cfg1 refute_es1) = 0%N /\
+   refused_at (model_obs refute_cfg1 refute_es1) 8 /\ no_empty_request (model_obs refute_cfg1 refute_es1)) /\
   (cfg_wf refute_cfg2 /\ Forall (bump_ok refute_cfg2) refute_es2 /\
-   c04_class refute_cfg2 refute_es2 (model_obs refute_cfg2 refute_es2) = 1%N).
+   c04_class refute_cfg2 refute_es2 (model_obs refute_cfg2 refute_es2) = 0%N /\
+   refused_at (model_obs refute_cfg2 refute_es2) 7 /\ no_empty_request (model_obs refute_cfg2 refute_es2)).
 Proof.
+  assert (Hne : forall os, forallb (fun o => negb (o_side o =? 1) ||
+                  forallb (fun d => negb (is_request (pcode d)) || (plen d =? 5)) (o_deliv o)) os = true -> no_empty_request os).
+  { intros os H. apply Forall_forall. intros o Ho. rewrite forallb_forall in H. specialize (H o Ho).
+    intros Hside. rewrite Hside in H. change (1 =? 1) with true in H. cbn [negb orb] in H. apply Forall_forall. intros d Hd Hreq.
+    rewrite forallb_forall in H. specialize (H d Hd). rewrite Hreq in H. cbn [negb orb] in H. apply Z.eqb_eq. exact H. }
   split; (split; [apply one_exch_wf; cbn; unfold GET, DELETE, FRESH; try lia; try (intros; discriminate); auto|]).
-  - split; [repeat constructor|vm_compute; reflexivity].
-  - split; [|vm_compute; reflexivity].
-    repeat (constructor; try exact I). cbn. intros r E. destruct (Z.to_nat 0) eqn:Z0; cbn in E; [injection E as <-; reflexivity|discriminate].
+  - split; [repeat constructor|]. split; [vm_compute; reflexivity|].
+    split; [vm_compute; repeat split; eexists; repeat split|apply Hne; vm_compute; reflexivity].
+  - split.
+    { repeat (constructor; try exact I). cbn. intros r E. destruct (Z.to_nat 0) eqn:Z0; cbn in E; [injection E as <-; reflexivity|discriminate]. }
+    split; [vm_compute; reflexivity|].
+    split; [vm_compute; repeat split; eexists; repeat split|apply Hne; vm_compute; reflexivity].
 Qed.
